@@ -571,3 +571,43 @@ def feature_dists(node, P):
 def n_features_near(node, P, r):
     d = np.stack(feature_dists(node, P), axis=1)
     return (d <= r).sum(axis=1)
+
+
+def structured_probes(node, prow, rng, per_edge=6):
+    """Adversarial query points for *boundary* predicates of polygons: points on
+    the extension of every edge line beyond the segment (measure-zero sets a
+    random probe never hits).  Supported for bnd(chain of transl/rot around par/tri)."""
+    if node["k"] != "bnd":
+        return None
+    chain = []
+    base = node["d"]
+    while base["k"] in ("transl", "rot"):
+        chain.append(base)
+        base = base["d"]
+    if base["k"] not in ("par", "tri"):
+        return None
+    one = {v: np.asarray(val, float).reshape(1, -1) for v, val in prow.items()}
+    if any(v not in one for v in free_vars(node)):
+        return None
+    if not one:
+        one = {"_": np.zeros((1, 1))}
+    verts = corners(base, one, 1)[0]
+    pts = []
+    m = len(verts)
+    for i in range(m):
+        a, b = verts[i], verts[(i + 1) % m]
+        for _ in range(per_edge):
+            s = rng.uniform(0.05, 0.6)
+            s = -s if rng.random() < 0.5 else 1 + s
+            pts.append(a + s * (b - a))
+    p = np.array(pts)
+    for t in reversed(chain):
+        n = len(p)
+        Q = {v: np.repeat(val, n, axis=0) for v, val in one.items()}
+        if t["k"] == "transl":
+            p = p + evv(t["v"], Q, n)
+        else:
+            ang = ev(t["ang"], Q, n)
+            c = evv(t["around"], Q, n)
+            p = _rot_pts(p[:, None, :], ang, c)[:, 0, :]
+    return {base["var"]: p}
